@@ -30,7 +30,7 @@ EXPLANATION = ('Each evaluate() is read symbolically with all helpers inlined (p
                'of the order partition of its comparison operands, including boundaries and the degenerate epsilon=0 partition; worse() is evaluated on all 16 pairs / 64 triples; '
                'worseStatus is checked as a fold by finite-domain induction; report concatenation by structure. Finite domains are enumerated completely.')
 ASSUMPTIONS = ['values are touched only through the comparisons extracted (checked: operands are the bare argument and T-E / T+E / thresholds)',
-               'std::list::insert(end, first, last) / std::map::insert(first, last) semantics', 'non-negative epsilon; low <= high reliability threshold']
+               'std::list::insert(end, first, last) / std::map::insert(first, last) semantics', 'non-negative epsilon (reliability thresholds in either order: the low threshold has priority)']
 LEVEL_TEXT = ('Exhaustive over the finite order-type partition of each decision tree (all boundary cases included, float or int alike, because the code only compares), '
               'and over the 4-value status domain; plus per-path agreement of stored and returned status, message and value. This settles the classification clauses for every input.')
 LEVEL_NOTE = 'Trusted: clang front end, extractor, symbolic reader, library container semantics named in the assumptions. One ulp around a threshold is covered because the comparison itself is what is evaluated.'
@@ -77,7 +77,7 @@ def cells(kind):
                 cls = 'ok' if v < T + E else 'high'
                 out.append(('max=%s E=%s v=%s' % (T, E, v), {'v': v, 'T': T, 'E': E}, cls, 'OK' if cls == 'ok' else 'ERROR'))
     elif kind == 'reliability':
-        for (lo, hi, vs) in ((0, 2, (-1, 0, 1, 2, 3)), (1, 1, (0, 1, 2))):
+        for (lo, hi, vs) in ((0, 2, (-1, 0, 1, 2, 3)), (1, 1, (0, 1, 2)), (2, 0, (-1, 0, 1, 2, 3))):
             for v in vs:
                 cls = 'low' if v < lo else 'mid' if v < hi else 'ok'
                 out.append(('low=%s high=%s v=%s' % (lo, hi, v), {'v': v, 'lo': lo, 'hi': hi}, cls, {'low': 'ERROR', 'mid': 'WARN', 'ok': 'OK'}[cls]))
@@ -100,6 +100,7 @@ def run(fx, R, tier):
     for (cq, kind) in kinds:
         check_checkup(fx, R, cq, kind)
     check_timeout(fx, R)
+    check_printer(fx, R)
     check_worse(fx, R)
     check_fold(fx, R)
     check_concat(fx, R)
@@ -259,7 +260,7 @@ def check_checkup(fx, R, cq, kind):
             n_ok += 1
             if exhaustive_form:
                 R.holds('T1', inst, '%s -> %s, "%s"' % (desc, want, TEXT[kind][cls]), fx.rel(f['loc']), 'E-ORD')
-    if not exhaustive_form:
+    if not exhaustive_form and n_ok == len(cells(kind)):
         R.undecided('T1', cname + ':operand-form', 'no witness cell disagrees, but a comparison is not of the form `value <op> T+-E` '
                     '(the cell partition is then not exhaustive for it): %s' % [c[0] for st in paths for c in st.tconds if not operand_form(c[1], kind)][:1])
 
@@ -356,6 +357,22 @@ def check_timeout(fx, R):
             elif not (isinstance(val, sp.Symbol) and val.name == '""'):
                 ok, why = False, 'timeout leaves the value %s instead of the empty string' % val
         R.check(ok, 'T2', cname + '::timeout', why, 'STALE, "<name> timeout.", empty value on every path', fx.rel(f['loc']), 'E-STATE')
+
+
+def check_printer(fx, R):
+    """The info entry is `the printed value`: toStringInfoValue(v) streams v into an ostringstream and returns its string."""
+    fs = [f for f in fx.functions.values() if f['q'].startswith(Q + 'toStringInfoValue<')]
+    if not fs:
+        R.undecided('T2', 'toStringInfoValue', 'no instantiation found')
+    for f in sorted(fs, key=lambda f: f['q']):
+        R.used(f)
+        from .C14 import stmts_sx
+        st = stmts_sx(f)
+        ok = len(st) == 3 and st[0][0] == 'decl' and st[1] == ('expr', ('<<', st[0][1], 'infoValue')) and st[2] in (('return', ('.str', st[0][1])), ('return', ('new:std::basic_string<char>', ('.str', st[0][1]))))
+        if ok:
+            R.holds('T2', short_fn(f['q']), 'streams the value and returns the stream contents', fx.rel(f['loc']), 'E-STATE')
+        else:
+            R.undecided('T2', short_fn(f['q']), 'printer idiom not recognised: %s' % (st,))
 
 
 def check_worse(fx, R):
@@ -529,4 +546,33 @@ def check_concat(fx, R):
             'append all of report2.diagnostics at the end, in order', fx.rel(f['loc']), 'E-STATE')
     R.check(len(ii) == 1 and ii[0] in want_i, 'T5', 'operator+=:info', 'info entries are combined by %s, expected insert(begin(report2.info), end(report2.info))' % (ii,),
             'merge all info entries of report2', fx.rel(f['loc']), 'E-STATE')
+    # every path must do both; a shortcut path (e.g. `report1 = report2`) is only sound when report1 is known to hold nothing at all
+    top = f['body']['s'] if f['body']['k'] == 'Compound' else [f['body']]
+    uncond = [deep_unwrap(sx(x['e'])) for x in top if x['k'] == 'Expr']
+    both_uncond = any(u in want_d for u in uncond) and any(u in want_i for u in uncond)
+    for x in top:
+        if x['k'] != 'If':
+            continue
+        cond = deep_unwrap(sx(x['c']))
+        inner = [deep_unwrap(sx(y['e'])) for y in walk(x['t']) if y.get('k') == 'Expr']
+        returns_early = any(y.get('k') == 'Return' for y in walk(x['t']))
+        if not returns_early and both_uncond:
+            continue
+        if ('=', 'report1', 'report2') in inner and returns_early:
+            conj = []
+            def flat(c):
+                if isinstance(c, tuple) and c[0] == '&&':
+                    flat(c[1]); flat(c[2])
+                else:
+                    conj.append(c)
+            flat(cond)
+            need = {('.empty', 'report1.diagnostics'), ('.empty', 'report1.info')}
+            missing = need - set(conj)
+            if missing:
+                R.violated('T5', 'operator+=:shortcut', 'under `%s` the left report is overwritten by the right one instead of merged, but that condition does not establish %s: entries of the '
+                           'left report are lost (e.g. an info-only header report += a check-up report)' % (cond, sorted(m_[1] + ' empty' for m_ in missing)), fx.rel(x['loc']), 'E-STATE')
+            else:
+                R.holds('T5', 'operator+=:shortcut', 'overwrite only when the left report holds nothing', fx.rel(x['loc']), 'E-STATE')
+        else:
+            R.undecided('T5', 'operator+=:paths', 'conditional path `%s` with statements %s not recognised' % (cond, inner))
     R.check(rets == ['report1'], 'T5', 'operator+=:return', 'returns %s' % (rets,), 'returns the left operand', fx.rel(f['loc']), 'E-STATE')
